@@ -190,8 +190,8 @@ M = [
      "        self.before_run()\n        self._unpaused.wait()", "        self._unpaused.wait()\n        self.before_run()\n        self.before_run() if self._stop.is_set() else None"),
     ('c20-final-not-checked', 'C20', 'sismic/runner/runner.py',
      "        while not self.interpreter.final and not self._stop.is_set():", "        while not self._stop.is_set():"),
-    ('c20-pause-clears-stop', 'C20', 'sismic/runner/runner.py',
-     "        self._stop.set()\n        self._unpaused.set()\n        self.wait()", "        self._unpaused.set()\n        self._stop.set()\n        self.wait()"),
+    ('c20-stop-does-not-unpause', 'C20', 'sismic/runner/runner.py',
+     "        self._stop.set()\n        self._unpaused.set()\n        self.wait()", "        self._stop.set()\n        self.wait()"),
     ('c20-no-wait-when-paused', 'C20', 'sismic/runner/runner.py',
      "            time.sleep(max(0, self.interval - elapsed))\n            self._unpaused.wait()", "            time.sleep(max(0, self.interval - elapsed))\n            if self.interval > 0:\n                self._unpaused.wait()"),
 ]
